@@ -17,11 +17,13 @@ in the statements).  Helper lemmas live in `DryocVerif/Proofs/Protected*.lean`.
     the remaining pages of the allocation are `rw`, unlocked;
   * blocks of distinct live regions are disjoint;
   * every page outside all live blocks is `rw`.
-`Tight c s` adds: every page outside all live blocks is unlocked.  `Tight` is preserved by every
-token EXCEPT `lock` on a non-empty `NoAccess` region (`LocksNoAccess`): there `mlock(2)` fails on
-the `PROT_NONE` pages but leaves them marked locked, the error path drops the region with
-`lm = Unlocked`, and nobody unlocks them (observed on the real harness: sample line 1,
-answer `err` with `lck=4` up to `end lck=4`).  See `lock_noaccess_leaks`.
+`Tight c s` adds: every page outside all live blocks is unlocked.  In the repaired model
+(`c.undo = true`: `dryoc_mlock` calls `munlock` on its failure path) `Tight` is preserved by every
+token, hence `drop_restores` has no side condition.  Before the repair (`c.undo = false`, kept as a
+counter-model) `lock` on a non-empty `NoAccess` region broke it: `mlock(2)` fails on the `PROT_NONE`
+pages but leaves them marked locked, the error path drops the region with `lm = Unlocked`, and
+nobody unlocks them (observed on the real harness before the repair: sample line 1 ended with
+`lck=4`).  See `lock_noaccess_leaks` and, for the leaky variant, `drop_restores_leaky`.
 -/
 namespace DryocVerif.Properties.C14
 open DryocVerif DryocVerif.Model.Protected DryocVerif.Proofs.Protected
@@ -221,16 +223,18 @@ theorem drop_restores_locks (c : Cfg) (hP : 0 < c.P) (s : State) (h : Inv c s) (
     tight_dropAll hP s.slots (m := { s.m with rel := [] }) h ht
   exact g p (fun _ hb => by simp at hb)
 
-/-- `Tight` is kept by every token that is not a `lock` of a non-empty `NoAccess` region -/
+/-- `Tight` is kept by every token of the repaired model; in the leaky variant by every token that
+is not a `lock` of a non-empty `NoAccess` region -/
 theorem tight_step (c : Cfg) (hP : 0 < c.P) (s : State) (t : Tok) (h : Inv c s) (ht : Tight c s)
-    (hno : ¬ LocksNoAccess s t) : Tight c (step c s t).2 :=
+    (hno : c.undo = true ∨ ¬ LocksNoAccess s t) : Tight c (step c s t).2 :=
   Proofs.Protected.tight_step hP h ht t hno
 
-/-- `drop_restores`: for every history (any oracle, refusals and panics included) in which no
-`lock` is applied to a non-empty `NoAccess` region, after all handles are dropped no page is locked
-and no page has altered rights; `lockedPages` (the harness' `lck=`) is therefore 0. -/
-theorem drop_restores (c : Cfg) (hP : 0 < c.P) (oracle : Nat → Bool) (toks : List Tok)
-    (hno : NoNALock c (State.init oracle) toks) :
+theorem tight_reachable (c : Cfg) (hP : 0 < c.P) (hu : c.undo = true) (oracle : Nat → Bool)
+    (toks : List Tok) : Tight c (runState c (State.init oracle) toks) :=
+  tight_runState hP toks (inv_init c oracle) (tight_init c oracle) (Or.inl hu)
+
+theorem drop_restores_aux (c : Cfg) (hP : 0 < c.P) (oracle : Nat → Bool) (toks : List Tok)
+    (hno : c.undo = true ∨ NoNALock c (State.init oracle) toks) :
     let e := finish c (runState c (State.init oracle) toks)
     (∀ p, e.m.k.perm p = Kernel.init.perm p ∧ e.m.k.locked p = Kernel.init.locked p) ∧
     lockedPages e.m.k = 0 := by
@@ -244,24 +248,56 @@ theorem drop_restores (c : Cfg) (hP : 0 < c.P) (oracle : Nat → Bool) (toks : L
   intro p _
   simp [e, hl p]
 
-/-- without that hypothesis the rights are still restored (only the lock flag can leak) -/
+/-- `drop_restores` (repaired model, `c.undo = true`): for EVERY history — any oracle, refusals,
+kernel failures on `PROT_NONE` pages, panics — after all handles are dropped no page is locked and
+no page has altered rights; `lockedPages` (the harness' `lck=`) is 0. -/
+theorem drop_restores (c : Cfg) (hP : 0 < c.P) (hu : c.undo = true) (oracle : Nat → Bool)
+    (toks : List Tok) :
+    let e := finish c (runState c (State.init oracle) toks)
+    (∀ p, e.m.k.perm p = Kernel.init.perm p ∧ e.m.k.locked p = Kernel.init.locked p) ∧
+    lockedPages e.m.k = 0 :=
+  drop_restores_aux c hP oracle toks (Or.inl hu)
+
+/-- the leaky variant needs the side condition: no `lock` on a non-empty `NoAccess` region -/
+theorem drop_restores_leaky (c : Cfg) (hP : 0 < c.P) (oracle : Nat → Bool) (toks : List Tok)
+    (hno : NoNALock c (State.init oracle) toks) :
+    let e := finish c (runState c (State.init oracle) toks)
+    (∀ p, e.m.k.perm p = Kernel.init.perm p ∧ e.m.k.locked p = Kernel.init.locked p) ∧
+    lockedPages e.m.k = 0 :=
+  drop_restores_aux c hP oracle toks (Or.inr hno)
+
+/-- the rights are restored in both variants (only the lock flag could leak) -/
 theorem drop_restores_perms_always (c : Cfg) (hP : 0 < c.P) (oracle : Nat → Bool) (toks : List Tok) (p : Nat) :
     (finish c (runState c (State.init oracle) toks)).m.k.perm p = .rw :=
   drop_restores_perms c hP _ (inv_reachable c hP oracle toks) p
 
-/-! ### the one leak: `lock` on a non-empty `NoAccess` region -/
+/-! ### the repaired defect: `lock` on a non-empty `NoAccess` region -/
 
 def c1 : Cfg := { P := 4096, isArr := false, n := 1, wipe := true }
 
-/-- Tail of sample line 1 (`… unlock na lock`): `mlock(2)` on `PROT_NONE` pages fails but leaves
-them marked locked; `Protected::mlock` returns `Err`, the consumed region is dropped with
-`lm = Unlocked`, so nobody calls `munlock`: after ALL handles are gone one page is still locked
-(the harness shows `lck=4`).  Hence the hypothesis of `drop_restores`. -/
+/-- the model of the tree before the repair: `dryoc_mlock` without the `munlock` on failure -/
+def c1Leaky : Cfg := { c1 with undo := false }
+
+def toksNaLock : List Tok := [⟨.new, 0⟩, ⟨.lock, 0⟩, ⟨.unlock, 0⟩, ⟨.na, 0⟩, ⟨.lock, 0⟩]
+
+/-- Counter-model (leaky variant ONLY; tail of sample line 1, `… unlock na lock`): `mlock(2)` on
+`PROT_NONE` pages fails but leaves them marked locked; `Protected::mlock` returns `Err`, the
+consumed region is dropped with `lm = Unlocked`, so nobody calls `munlock`: after ALL handles are
+gone one page is still locked (the harness showed `lck=4`). -/
 theorem lock_noaccess_leaks :
-    let toks : List Tok := [⟨.new, 0⟩, ⟨.lock, 0⟩, ⟨.unlock, 0⟩, ⟨.na, 0⟩, ⟨.lock, 0⟩]
-    (run c1 (State.init fun _ => true) toks).map (·.1) = [.ok, .ok, .ok, .ok, .err] ∧
-    ¬ NoNALock c1 (State.init fun _ => true) toks ∧
-    lockedPages (finish c1 (runState c1 (State.init fun _ => true) toks)).m.k = 1 := by
+    (run c1Leaky (State.init fun _ => true) toksNaLock).map (·.1) = [.ok, .ok, .ok, .ok, .err] ∧
+    ¬ NoNALock c1Leaky (State.init fun _ => true) toksNaLock ∧
+    lockedPages (runState c1Leaky (State.init fun _ => true) toksNaLock).m.k = 1 ∧
+    lockedPages (finish c1Leaky (runState c1Leaky (State.init fun _ => true) toksNaLock)).m.k = 1 := by
+  decide
+
+/-- the same history on the repaired model: still `err`, but nothing stays locked — neither right
+after the failed `lock` nor after the teardown (sample line 1 now ends with `lck=0`) -/
+theorem lock_noaccess_repaired :
+    (run c1 (State.init fun _ => true) toksNaLock).map (·.1) = [.ok, .ok, .ok, .ok, .err] ∧
+    lockedPages (runState c1 (State.init fun _ => true) toksNaLock).m.k = 0 ∧
+    (runState c1 (State.init fun _ => true) toksNaLock).m.rel = [(8, 0)] ∧
+    lockedPages (finish c1 (runState c1 (State.init fun _ => true) toksNaLock)).m.k = 0 := by
   decide
 
 /-! ### non-vacuity -/
@@ -276,7 +312,7 @@ example :
     (s.m.k.locked 1, s.m.k.locked 2, s.m.k.locked 3, s.m.k.locked 4) = (false, true, true, false) := by
   refine ⟨⟨_, rfl, ?_⟩, ?_⟩ <;> decide
 
-/-- the side condition of `drop_restores` holds for ordinary histories (here with a refusal, a
+/-- the side condition of `drop_restores_leaky` holds for ordinary histories (here with a refusal, a
 panic and a locked resize on the way), and the teardown then leaves nothing locked -/
 example :
     let toks : List Tok := [⟨.new, 0⟩, ⟨.lock, 0⟩, ⟨.clone, 0⟩, ⟨.failfrom 1, 0⟩, ⟨.clone, 0⟩,
